@@ -80,13 +80,17 @@ def run(ctx, replay=None):
     elif replay:
         jobs.append(("replay", ["run", replay], None))
     else:
+        import glob
+        files = sorted(glob.glob(os.path.join(os.path.dirname(os.path.dirname(os.path.dirname(os.path.abspath(__file__)))), "corpus", "C06", "*.ops")))
+        if files:
+            jobs.append(("corpus", ["run"] + files, None))
         if quick:
             jobs.append(("sweep0", ["faultsweep", 2, 2], ctx.seed * 1000 + 10))
-            jobs.append(("idle", ["gen", "fault-idle", 3], ctx.seed * 1000 + 20))
+            jobs.append(("idle", ["gen", "fault-idle", 8], ctx.seed * 1000 + 20))
         else:
             for i in range(4):
                 jobs.append(("sweep%d" % i, ["faultsweep", 6, 1], ctx.seed * 1000 + 10 + i))
-            jobs.append(("idle", ["gen", "fault-idle", 12], ctx.seed * 1000 + 20))
+            jobs.append(("idle", ["gen", "fault-idle", 30], ctx.seed * 1000 + 20))
     total, fired, samples, seen = 0, 0, [], set()
     kinds = {}
     fails, mism = [], []
